@@ -57,3 +57,72 @@ def check_c17(tier, seed):
         return 1 if (rc == 1 or extra) else rc
     finally:
         run.close()
+
+
+def kf35(f):
+    """KF35: Windows Join of ':' with an element starting with ':' (older generation of the toolchain's join)."""
+    if f["os"] == "windows" and f["fn"] == "Join":
+        a, _, b = f["in"].partition("|")
+        return a == ":" and b.startswith(":")
+    return False
+
+
+def check_c13(tier, seed):
+    t0 = time.time()
+    sc = vlib.Scratch("C13")
+    cov = {"samples": [], "tlc_runs": []}
+    try:
+        subprocess.run(["python3", os.path.join(vlib.VERIF, "lib", "genwinref.py")], check=True)
+        drive = vlib.build_driver(sc, tags=WIN_TAGS)
+        q = tier == "quick"
+        l1, l2 = (4, 2) if q else (5, 3)
+        tables = sc.path("lex.ndjson")
+        r = vlib.run_tlc(sc, "MClex", "MClex.cfg", env={"VERIF_LEN1": l1, "VERIF_LEN2": l2, "VERIF_EDGES": tables}, timeout=3000, heap="12g")
+        if not r["ok"]:
+            raise Infra("Lex.tla violates its own laws:\n" + r["out"][-3000:])
+        cov["states"], cov["transitions"] = r["distinct"], r["generated"]
+        cov["tlc_runs"].append({"model": "LexSpec", "strings_up_to": l1, "pairs_up_to": l2, "checked": ["CleanIdempotent", "SplitReassembles"], "exhaustive": True})
+        bad = sc.path("lexbad.ndjson")
+        rr = subprocess.run([drive, "lexreplay", "-edges", tables, "-out", bad], capture_output=True, text=True, timeout=3000)
+        if rr.returncode != 0:
+            raise Infra("lexreplay failed: " + rr.stderr[-2000:])
+        st = json.loads(rr.stdout.strip().splitlines()[-1])
+        cov["traces_validated_against_impl"] = st["evaluations"]
+        cov["evaluations"] = st["evaluations"]
+        finds = [json.loads(l) for l in open(bad)]
+        spec = [f for f in finds if f["kind"] == "spec"]
+        impl = [f for f in finds if f["kind"] == "impl"]
+        if spec:
+            for f in spec[:5]:
+                print("SPEC-MISMATCH (the reference library disagrees with Lex.tla; no verdict): %s %s(%r) spec=%r reference=%r" %
+                      (f["os"], f["fn"], f["in"], f["want"], f["got"]))
+            return 2
+        known = [f for f in impl if kf35(f)]
+        viol = [f for f in impl if not kf35(f)]
+        with open(tables) as fh:
+            for i, line in enumerate(fh):
+                if i in (1000, 5000):
+                    cov["samples"].append(json.loads(json.loads(line)))
+        cov["exhaustive"] = True
+        cov["known_finding_inputs"] = len(known)
+        for f in vlib.load_findings()["findings"]:
+            if f["status"] == "open" and "C13" in f["properties"]:
+                print("KNOWN-FINDING: property=C13 %s %s%s" % (f["id"], f["what"], " (exercised in this run)" if known else ""))
+        nv = 0
+        seen = set()
+        for f in viol:
+            key = (f["os"], f["fn"])
+            if key in seen and nv >= 20:
+                continue
+            seen.add(key)
+            nv += 1
+            if nv <= 20:
+                p = vlib.save_replay("C13", {"property": "C13", "kind": "lex", "finding": f})
+                print("VIOLATION property=C13 replay=%s" % p)
+                vlib.log("  %s %s(%r): want %r got %r" % (f["os"], f["fn"], f["in"], f["want"], f["got"]))
+        vlib.write_evidence("C13", tier, seed, "model_checking", cov, time.time() - t0, violations=len(viol),
+                            assumptions=["alphabet {a,b,C,.,/,\\\\,:,?,*,-}; Windows domain: no leading double separator (UNC/device paths), drive = letter + ':'",
+                                         "Windows two-argument functions (Join, Rel, Match) are compared with the toolchain's Windows code retargeted to this host, not with Lex.tla"])
+        return 1 if viol else 0
+    finally:
+        sc.cleanup()
